@@ -27,7 +27,7 @@ func (x *Explorer) RunCases(cases []Case) int {
 			return
 		}
 		cs := cases[i]
-		cur := &Node{State: cs.Base, Seed: cs.BaseName}
+		cur := &Node{State: cs.Base, Seed: cs.BaseName, SeedSteps: cs.BaseSeed}
 		if cs.Base == nil {
 			cur.State = NewState()
 		}
